@@ -5,6 +5,7 @@
 import GocoinV.Model.Addr
 import GocoinV.Proofs.C15SegwitInv
 import GocoinV.Proofs.C15Base58
+import GocoinV.Proofs.C15Fits
 namespace GocoinV.Addr
 open GocoinV Bech32
 
@@ -92,5 +93,387 @@ theorem fromString_toString_segwit (H : Hashes) (hrp prog s : Bytes) (v : Nat)
     simp only [hpre, tb1, or_true, ↓reduceIte]
     have : List.take 2 [(116 : UInt8), 98, 49] = [116, 98] := rfl
     rw [this, hdec]
+
+/- script → address → script ------------------------------------------------------------------------ -/
+
+theorem dataFold_isSome (d : Bytes) (h : ∀ x ∈ d, x.toNat ≤ 31) : ∀ c, ∃ c', dataFold? d c = some c' := by
+  induction d with
+  | nil => intro c; exact ⟨c, rfl⟩
+  | cons x t ih =>
+    intro c
+    have hx := shr5_of_le31 x (h x (by simp))
+    unfold dataFold?
+    simp only [hx, ne_eq, not_true_eq_false, ↓reduceIte]
+    exact ih (fun y hy => h y (by simp [hy])) _
+
+theorem hrpHigh_bc : (hrpHigh? [98, 99] 1).isSome = true := by decide +kernel
+theorem hrpHigh_tb : (hrpHigh? [116, 98] 1).isSome = true := by decide +kernel
+
+/-- `SegwitEncode` succeeds on every supported (version, program) for the two Bitcoin hrps -/
+theorem segwitEncode_isSome (hrp prog : Bytes) (v : Nat) (hh : hrp = [98, 99] ∨ hrp = [116, 98])
+    (hv : v ≤ 16) (hl2 : 2 ≤ prog.length) (hl40 : prog.length ≤ 40)
+    (hv0 : v = 0 → prog.length = 20 ∨ prog.length = 32) : ∃ s, segwitEncode hrp v prog = some s := by
+  obtain ⟨d, hd⟩ := convertBits_85_total prog
+  obtain ⟨hlt, p, hp, hlen, _⟩ := convertBits_85_spec prog d hd
+  have hhigh : ∃ c, hrpHigh? hrp 1 = some c ∧ hrp.length = 2 := by
+    rcases hh with e | e <;> subst e
+    · have := hrpHigh_bc; cases hx : hrpHigh? [98, 99] 1 with
+      | none => rw [hx] at this; cases this
+      | some c => exact ⟨c, rfl, rfl⟩
+    · have := hrpHigh_tb; cases hx : hrpHigh? [116, 98] 1 with
+      | none => rw [hx] at this; cases this
+      | some c => exact ⟨c, rfl, rfl⟩
+  obtain ⟨c, hc, hl⟩ := hhigh
+  have hdat : ∀ x ∈ UInt8.ofNat v :: d, x.toNat ≤ 31 := by
+    intro x hx
+    rcases List.mem_cons.mp hx with rfl | hx
+    · rw [UInt8.toNat_ofNat']; omega
+    · have := hlt x hx; omega
+  obtain ⟨c', hc'⟩ := dataFold_isSome _ hdat (hrpLow hrp (polymodStep c))
+  unfold segwitEncode
+  have c1 : ¬ v > 16 := by omega
+  have c2 : ¬ (v = 0 ∧ prog.length ≠ 20 ∧ prog.length ≠ 32) := by
+    intro hc; have := hv0 hc.1; omega
+  have c3 : ¬ (prog.length < 2 ∨ prog.length > 40) := by omega
+  rw [if_neg c1, if_neg c2, if_neg c3, hd]
+  simp only
+  unfold encode
+  rw [hc]
+  have c4 : ¬ (hrp.length + 7 + (UInt8.ofNat v :: d).length > 90) := by
+    simp only [List.length_cons]; omega
+  simp only [Option.bind_eq_bind, Option.bind_some, c4, ↓reduceIte, hc', Option.pure_def]
+  exact ⟨_, rfl⟩
+
+theorem ofNat_toNat_small (n : Nat) (h : n < 256) : (UInt8.ofNat n).toNat = n := by
+  rw [UInt8.toNat_ofNat']; omega
+
+/-- witness programs: OutScript then NewAddrFromPkScript returns the same (version, program) -/
+theorem fromPkScript_outScript_segwit (H : Hashes) (hrp prog : Bytes) (v : Nat) (tn : Bool)
+    (hv : v ≤ 16) (hl2 : 2 ≤ prog.length) (hl40 : prog.length ≤ 40)
+    (hv0 : v = 0 → prog.length = 20 ∨ prog.length = 32) :
+    ∃ scr, outScript (.segwit hrp v prog) = some scr ∧
+      fromPkScript H scr tn = some (.segwit (if tn then strBytes "tb" else strBytes "bc") v prog) ∧
+      outScript (.segwit (if tn then strBytes "tb" else strBytes "bc") v prog) = some scr := by
+  have hlen8 : (UInt8.ofNat prog.length).toNat = prog.length := ofNat_toNat_small _ (by omega)
+  have henc : ∃ s, segwitEncode (if tn then strBytes "tb" else strBytes "bc") v prog = some s := by
+    apply segwitEncode_isSome _ _ _ _ hv hl2 hl40 hv0
+    cases tn
+    · left; simp [bc]
+    · right; simp [tb]
+  obtain ⟨s, hs⟩ := henc
+  by_cases h0 : v = 0
+  · subst h0
+    refine ⟨0x00 :: UInt8.ofNat prog.length :: prog, by simp [outScript], ?_, by simp [outScript]⟩
+    unfold fromPkScript
+    have hw : isWitnessProgram (0x00 :: UInt8.ofNat prog.length :: prog) = some (0, prog) := by
+      unfold isWitnessProgram
+      have c1 : ¬ ((0x00 :: UInt8.ofNat prog.length :: prog).length < 4 ∨
+          (0x00 :: UInt8.ofNat prog.length :: prog).length > 42) := by simp only [List.length_cons]; omega
+      rw [if_neg c1]
+      simp only [List.headD_cons, List.drop_succ_cons, List.drop_zero, List.length_cons, hlen8]
+      simp
+    rw [hw]
+    simp only [List.isEmpty_cons, Bool.false_eq_true, ↓reduceIte, hs]
+  · have hop : (UInt8.ofNat (v - 1 + 0x51)).toNat = v + 0x50 := by
+      rw [ofNat_toNat_small _ (by omega)]; omega
+    have hopne : UInt8.ofNat (v - 1 + 0x51) ≠ 0 := by
+      intro e; have := congrArg UInt8.toNat e; rw [hop] at this; simp at this
+    refine ⟨UInt8.ofNat (v - 1 + 0x51) :: UInt8.ofNat prog.length :: prog, by simp [outScript, h0, hv], ?_,
+      by simp [outScript, h0, hv]⟩
+    unfold fromPkScript
+    have hw : isWitnessProgram (UInt8.ofNat (v - 1 + 0x51) :: UInt8.ofNat prog.length :: prog) = some (v, prog) := by
+      unfold isWitnessProgram
+      have c1 : ¬ ((UInt8.ofNat (v - 1 + 0x51) :: UInt8.ofNat prog.length :: prog).length < 4 ∨
+          (UInt8.ofNat (v - 1 + 0x51) :: UInt8.ofNat prog.length :: prog).length > 42) := by
+        simp only [List.length_cons]; omega
+      rw [if_neg c1]
+      simp only [List.headD_cons, List.drop_succ_cons, List.drop_zero, List.length_cons, hlen8, hop]
+      have c2 : ¬ (UInt8.ofNat (v - 1 + 0x51) ≠ 0 ∧ (v + 0x50 < 0x51 ∨ v + 0x50 > 0x60)) := by
+        intro hc; omega
+      rw [if_neg c2]
+      simp only [hopne, ↓reduceIte]
+      have : v + 0x50 - 0x50 = v := by omega
+      simp [this]
+    rw [hw]
+    simp only [List.isEmpty_cons, Bool.false_eq_true, ↓reduceIte, hs]
+
+theorem len20 (l : Bytes) (h : l.length = 20) : ∃ a0 a1 a2 a3 a4 a5 a6 a7 a8 a9 b0 b1 b2 b3 b4 b5 b6 b7 b8 b9,
+    l = [a0, a1, a2, a3, a4, a5, a6, a7, a8, a9, b0, b1, b2, b3, b4, b5, b6, b7, b8, b9] := by
+  match l, h with
+  | [a0, a1, a2, a3, a4, a5, a6, a7, a8, a9, b0, b1, b2, b3, b4, b5, b6, b7, b8, b9], _ =>
+    exact ⟨a0, a1, a2, a3, a4, a5, a6, a7, a8, a9, b0, b1, b2, b3, b4, b5, b6, b7, b8, b9, rfl⟩
+
+/-- P2PKH: OutScript then NewAddrFromPkScript gives an address with the same hash and the same script -/
+theorem fromPkScript_outScript_p2pkh (H : Hashes) (ver : UInt8) (h : Bytes) (enc : Option Bytes) (tn : Bool)
+    (hl : h.length = 20) (hver : ver = 0 ∨ ver = 111 ∨ ver = 48) :
+    ∃ scr, outScript (.b58 ver h enc) = some scr ∧
+      fromPkScript H scr tn = some (.b58 (if tn then 111 else 0) h none) ∧
+      outScript (.b58 (if tn then 111 else 0) h none) = some scr := by
+  obtain ⟨a0, a1, a2, a3, a4, a5, a6, a7, a8, a9, b0, b1, b2, b3, b4, b5, b6, b7, b8, b9, rfl⟩ := len20 h hl
+  refine ⟨[0x76, 0xa9, 20] ++ [a0, a1, a2, a3, a4, a5, a6, a7, a8, a9, b0, b1, b2, b3, b4, b5, b6, b7, b8, b9] ++ [0x88, 0xac], ?_, ?_, ?_⟩
+  · rcases hver with e | e | e <;> subst e <;> rfl
+  · cases tn <;> rfl
+  · cases tn <;> rfl
+
+/-- P2SH: OutScript then NewAddrFromPkScript gives an address with the same hash and the same script -/
+theorem fromPkScript_outScript_p2sh (H : Hashes) (ver : UInt8) (h : Bytes) (enc : Option Bytes) (tn : Bool)
+    (hl : h.length = 20) (hver : ver = 5 ∨ ver = 196) :
+    ∃ scr, outScript (.b58 ver h enc) = some scr ∧
+      fromPkScript H scr tn = some (.b58 (if tn then 196 else 5) h none) ∧
+      outScript (.b58 (if tn then 196 else 5) h none) = some scr := by
+  obtain ⟨a0, a1, a2, a3, a4, a5, a6, a7, a8, a9, b0, b1, b2, b3, b4, b5, b6, b7, b8, b9, rfl⟩ := len20 h hl
+  refine ⟨[0xa9, 20] ++ [a0, a1, a2, a3, a4, a5, a6, a7, a8, a9, b0, b1, b2, b3, b4, b5, b6, b7, b8, b9] ++ [0x87], ?_, ?_, ?_⟩
+  · rcases hver with e | e <;> subst e <;> rfl
+  · cases tn <;> rfl
+  · cases tn <;> rfl
+
+/- Base58Check: String() then NewAddrFromString ------------------------------------------------------ -/
+
+end GocoinV.Addr
+namespace GocoinV.Base58
+
+theorem leVal_append_one (l : Bytes) (x : UInt8) : leVal (l ++ [x]) = leVal l + 256 ^ l.length * x.toNat := by
+  induction l with
+  | nil => simp [leVal]
+  | cons y t ih =>
+    simp only [List.cons_append, leVal, ih, List.length_cons, Nat.pow_succ]
+    rw [Nat.mul_add, ← Nat.mul_assoc, Nat.mul_comm 256 (256 ^ t.length)]; omega
+
+theorem digits_length_gt (k : Nat) : ∀ v, 58 ^ k ≤ v → k < (digits v).length := by
+  induction k with
+  | zero =>
+    intro v h
+    rw [digits]
+    have : v ≠ 0 := by simp at h; omega
+    simp [this]
+  | succ k ih =>
+    intro v h
+    rw [digits]
+    have hv : v ≠ 0 := by
+      have : 0 < 58 ^ (k + 1) := Nat.pow_pos (by omega)
+      omega
+    have : 58 ^ k ≤ v / 58 := by
+      rw [Nat.le_div_iff_mul_le (by omega)]; rw [Nat.pow_succ] at h; exact h
+    have := ih _ this
+    simp only [hv, ↓reduceDIte, List.length_append, List.length_cons, List.length_nil]; omega
+
+/-- the Base58 string is never shorter than the byte string -/
+theorem encode_length_ge (a : Bytes) : a.length ≤ (encode a).length := by
+  unfold encode
+  simp only [List.length_append, List.length_replicate, List.length_map]
+  have hsplit := congrArg List.length (List.takeWhile_append_dropWhile (p := (· == 0)) (l := a))
+  simp only [List.length_append] at hsplit
+  rw [beVal_dropWhile]
+  cases hd : a.dropWhile (· == 0) with
+  | nil => rw [hd] at hsplit; unfold leadingZeros; simp at hsplit; omega
+  | cons x t =>
+    have hx := GocoinV.Bech32.dropWhile_head_false _ _ _ _ hd
+    have hx0 : x ≠ 0 := by simpa using hx
+    have hxp : 1 ≤ x.toNat := by
+      rcases Nat.eq_zero_or_pos x.toNat with h | h
+      · exact absurd (UInt8.toNat_inj.mp (by simpa using h)) hx0
+      · exact h
+    have hb : 58 ^ t.length ≤ beVal (x :: t) := by
+      simp only [beVal, List.reverse_cons, leVal_append_one, List.length_reverse]
+      have h1 : (58 : Nat) ^ t.length ≤ 256 ^ t.length := Nat.pow_le_pow_left (by omega) _
+      have h2 : 256 ^ t.length * 1 ≤ 256 ^ t.length * x.toNat := Nat.mul_le_mul_left _ hxp
+      omega
+    have := digits_length_gt _ _ hb
+    rw [hd] at hsplit
+    simp only [List.length_cons] at hsplit
+    unfold leadingZeros; omega
+
+end GocoinV.Base58
+namespace GocoinV.Addr
+open GocoinV Bech32
+
+theorem len4 (l : Bytes) (h : l.length = 4) : ∃ a b c d, l = [a, b, c, d] := by
+  match l, h with
+  | [a, b, c, d], _ => exact ⟨a, b, c, d, rfl⟩
+
+/-- Base58Check: String() of a (version, hash160) address, read back by NewAddrFromString, gives the same
+    version and hash (when the string does not look like a segwit address — see `b58_not_segwitPrefix`) -/
+theorem fromString_toString_b58 (H : Hashes) (hH : ∀ x, (H.sha2sum x).length = 32) (ver : UInt8) (h s : Bytes)
+    (hl : h.length = 20) (hs : toString H (.b58 ver h none) = some s) (hp : ¬ segwitPrefix s) :
+    fromString H s = .ok (.b58 ver h (some s)) := by
+  simp only [toString, Option.some.injEq] at hs
+  obtain ⟨a0, a1, a2, a3, a4, a5, a6, a7, a8, a9, b0, b1, b2, b3, b4, b5, b6, b7, b8, b9, rfl⟩ := len20 h hl
+  have hck : ((H.sha2sum (ver :: [a0, a1, a2, a3, a4, a5, a6, a7, a8, a9, b0, b1, b2, b3, b4, b5, b6, b7, b8, b9])).take 4).length = 4 := by
+    rw [List.length_take, hH]; rfl
+  obtain ⟨k0, k1, k2, k3, hk⟩ := len4 _ hck
+  rw [hk] at hs
+  have hdec := Base58.decode_encode
+    (ver :: [a0, a1, a2, a3, a4, a5, a6, a7, a8, a9, b0, b1, b2, b3, b4, b5, b6, b7, b8, b9] ++ [k0, k1, k2, k3]) (by simp)
+  rw [hs] at hdec
+  have hlen := Base58.encode_length_ge
+    (ver :: [a0, a1, a2, a3, a4, a5, a6, a7, a8, a9, b0, b1, b2, b3, b4, b5, b6, b7, b8, b9] ++ [k0, k1, k2, k3])
+  rw [hs] at hlen
+  simp only [List.cons_append, List.length_cons, List.length_nil, List.nil_append] at hlen
+  rw [b58check_accept_iff H s (by omega) hp]
+  exact ⟨_, hdec, rfl, hk, rfl⟩
+
+end GocoinV.Addr
+namespace GocoinV.Base58
+
+/-- the leading base-58 digit of a number with exactly k+1 digits -/
+theorem head_digit (k : Nat) : ∀ v, 58 ^ k ≤ v → v < 58 ^ (k + 1) → ∃ t, digits v = (v / 58 ^ k) :: t := by
+  induction k with
+  | zero =>
+    intro v h1 h2
+    have hv : v ≠ 0 := by simp at h1; omega
+    have hq : v / 58 = 0 := by simp at h2; omega
+    have hm : v % 58 = v := by simp at h2; omega
+    rw [digits]
+    simp only [hv, ↓reduceDIte, hq, hm]
+    rw [digits]
+    simp
+  | succ k ih =>
+    intro v h1 h2
+    have hv : v ≠ 0 := by
+      have : 0 < 58 ^ (k + 1) := Nat.pow_pos (by omega)
+      omega
+    have g1 : 58 ^ k ≤ v / 58 := by
+      rw [Nat.le_div_iff_mul_le (by omega)]; rw [Nat.pow_succ] at h1; exact h1
+    have g2 : v / 58 < 58 ^ (k + 1) := by
+      rw [Nat.div_lt_iff_lt_mul (by omega)]; rw [Nat.pow_succ] at h2; exact h2
+    obtain ⟨t, ht⟩ := ih _ g1 g2
+    rw [digits]
+    simp only [hv, ↓reduceDIte, ht, List.cons_append]
+    refine ⟨t ++ [v % 58], ?_⟩
+    rw [Nat.div_div_eq_div_mul, Nat.pow_succ, Nat.mul_comm]
+
+/-- first character of the Base58 encoding of a 25-byte payload with a non-zero version byte, from
+    numeric bounds on version·256^24 -/
+theorem encode_first (ver : UInt8) (rest : Bytes) (hl : rest.length = 24) (k lo hi : Nat)
+    (hlo : lo * 58 ^ k ≤ ver.toNat * 256 ^ 24) (hhi : (ver.toNat + 1) * 256 ^ 24 ≤ (hi + 1) * 58 ^ k)
+    (hlo1 : 1 ≤ lo) (hhi58 : hi < 58) :
+    ∃ d t, encode (ver :: rest) = digitChar d :: t ∧ lo ≤ d ∧ d ≤ hi := by
+  have hv : ver ≠ 0 := by
+    intro e; subst e
+    have : 0 < 58 ^ k := Nat.pow_pos (by omega)
+    have : lo * 58 ^ k ≥ 1 * 58 ^ k := Nat.mul_le_mul_right _ hlo1
+    simp at hlo; omega
+  have hz : leadingZeros (ver :: rest) = 0 := by
+    unfold leadingZeros
+    rw [List.takeWhile_cons_of_neg (by simpa using hv)]; rfl
+  have hval : beVal (ver :: rest) = leVal rest.reverse + 256 ^ 24 * ver.toNat := by
+    simp only [beVal, List.reverse_cons, leVal_append_one, List.length_reverse, hl]
+  have hlt : leVal rest.reverse < 256 ^ 24 := by
+    have := leVal_lt rest.reverse; simpa [hl] using this
+  generalize hV : beVal (ver :: rest) = V at hval
+  have hp : 0 < 58 ^ k := Nat.pow_pos (by omega)
+  have b1 : lo * 58 ^ k ≤ V := by rw [hval]; rw [Nat.mul_comm (256 ^ 24)]; omega
+  have b2 : V < (hi + 1) * 58 ^ k := by
+    rw [hval, Nat.mul_comm (256 ^ 24)]
+    rw [Nat.add_mul] at hhi; omega
+  have c1 : 58 ^ k ≤ V := by
+    have : 1 * 58 ^ k ≤ lo * 58 ^ k := Nat.mul_le_mul_right _ hlo1
+    omega
+  have c2 : V < 58 ^ (k + 1) := by
+    have : (hi + 1) * 58 ^ k ≤ 58 * 58 ^ k := Nat.mul_le_mul_right _ (by omega)
+    rw [Nat.pow_succ, Nat.mul_comm]; omega
+  obtain ⟨t, ht⟩ := head_digit k V c1 c2
+  refine ⟨V / 58 ^ k, t.map digitChar, ?_, ?_, ?_⟩
+  · unfold encode; rw [hz, hV, ht]; rfl
+  · rw [Nat.le_div_iff_mul_le hp]; exact b1
+  · have : V / 58 ^ k < hi + 1 := by rw [Nat.div_lt_iff_lt_mul hp]; exact b2
+    omega
+
+end GocoinV.Base58
+namespace GocoinV.Addr
+open GocoinV Bech32
+
+theorem digit_not_bt : ∀ d : Fin 58, d.val ≤ 2 ∨ d.val = 19 ∨ d.val = 44 ∨ d.val = 45 →
+    asciiLower (Base58.digitChar d.val) ≠ 98 ∧ asciiLower (Base58.digitChar d.val) ≠ 116 := by decide +kernel
+
+theorem not_prefix_of_first (c : UInt8) (t : Bytes) (h : asciiLower c ≠ 98 ∧ asciiLower c ≠ 116) :
+    ¬ segwitPrefix (c :: t) := by
+  unfold segwitPrefix
+  rw [bc1, tb1]
+  intro hc
+  rcases hc with e | e
+  · have := congrArg List.head? e; simp at this; exact h.1 this
+  · have := congrArg List.head? e; simp at this; exact h.2 this
+
+/-- the Base58Check string of the five supported version bytes never looks like a segwit address
+    (it starts with '1', '3', 'm'/'n', '2', 'L' respectively) -/
+theorem b58_not_segwitPrefix (ver : UInt8) (rest : Bytes) (hl : rest.length = 24)
+    (hver : ver = 0 ∨ ver = 5 ∨ ver = 111 ∨ ver = 196 ∨ ver = 48) :
+    ¬ segwitPrefix (Base58.encode (ver :: rest)) := by
+  have key : ∃ d t, Base58.encode (ver :: rest) = Base58.digitChar d :: t ∧
+      (d ≤ 2 ∨ d = 19 ∨ d = 44 ∨ d = 45) := by
+    rcases hver with e | e | e | e | e <;> subst e
+    · refine ⟨0, ?_⟩
+      unfold Base58.encode Base58.leadingZeros
+      rw [List.takeWhile_cons_of_pos (by rfl)]
+      simp only [List.length_cons, List.replicate_succ, List.cons_append]
+      exact ⟨_, rfl, by omega⟩
+    · obtain ⟨d, t, h1, h2, h3⟩ := Base58.encode_first 5 rest hl 33 2 2 (by decide) (by decide) (by omega) (by omega)
+      exact ⟨d, t, h1, by omega⟩
+    · obtain ⟨d, t, h1, h2, h3⟩ := Base58.encode_first 111 rest hl 33 44 45 (by decide) (by decide) (by omega) (by omega)
+      exact ⟨d, t, h1, by omega⟩
+    · obtain ⟨d, t, h1, h2, h3⟩ := Base58.encode_first 196 rest hl 34 1 1 (by decide) (by decide) (by omega) (by omega)
+      exact ⟨d, t, h1, by omega⟩
+    · obtain ⟨d, t, h1, h2, h3⟩ := Base58.encode_first 48 rest hl 33 19 19 (by decide) (by decide) (by omega) (by omega)
+      exact ⟨d, t, h1, by omega⟩
+  obtain ⟨d, t, he, hd⟩ := key
+  rw [he]
+  have hd58 : d < 58 := by omega
+  exact not_prefix_of_first _ _ (digit_not_bt ⟨d, hd58⟩ hd)
+
+/-- the five supported destination forms: witness v0 (20/32 bytes), witness v1..16 (2..40 bytes),
+    P2PKH (version bytes 0, 111, and Litecoin's 48), P2SH (5, 196); 20-byte hashes -/
+def Supported : Addr → Prop
+  | .segwit _ v p => v ≤ 16 ∧ 2 ≤ p.length ∧ p.length ≤ 40 ∧ (v = 0 → p.length = 20 ∨ p.length = 32)
+  | .b58 ver h _ => h.length = 20 ∧ (ver = 0 ∨ ver = 111 ∨ ver = 48 ∨ ver = 5 ∨ ver = 196)
+
+theorem script_roundtrip (H : Hashes) (a : Addr) (tn : Bool) (hs : Supported a) :
+    ∃ scr a', outScript a = some scr ∧ fromPkScript H scr tn = some a' ∧ outScript a' = some scr := by
+  cases a with
+  | segwit hrp v p =>
+    obtain ⟨h1, h2, h3, h4⟩ := hs
+    obtain ⟨scr, e1, e2, e3⟩ := fromPkScript_outScript_segwit H hrp p v tn h1 h2 h3 h4
+    exact ⟨scr, _, e1, e2, e3⟩
+  | b58 ver h enc =>
+    obtain ⟨hl, hv⟩ := hs
+    rcases hv with e | e | e | e | e
+    · obtain ⟨scr, e1, e2, e3⟩ := fromPkScript_outScript_p2pkh H ver h enc tn hl (Or.inl e)
+      exact ⟨scr, _, e1, e2, e3⟩
+    · obtain ⟨scr, e1, e2, e3⟩ := fromPkScript_outScript_p2pkh H ver h enc tn hl (Or.inr (Or.inl e))
+      exact ⟨scr, _, e1, e2, e3⟩
+    · obtain ⟨scr, e1, e2, e3⟩ := fromPkScript_outScript_p2pkh H ver h enc tn hl (Or.inr (Or.inr e))
+      exact ⟨scr, _, e1, e2, e3⟩
+    · obtain ⟨scr, e1, e2, e3⟩ := fromPkScript_outScript_p2sh H ver h enc tn hl (Or.inl e)
+      exact ⟨scr, _, e1, e2, e3⟩
+    · obtain ⟨scr, e1, e2, e3⟩ := fromPkScript_outScript_p2sh H ver h enc tn hl (Or.inr e)
+      exact ⟨scr, _, e1, e2, e3⟩
+
+/-- addresses as the wallet builds them: bc/tb for witness programs, no cached string for Base58 -/
+def Fresh : Addr → Prop
+  | .segwit hrp _ _ => hrp = strBytes "bc" ∨ hrp = strBytes "tb"
+  | .b58 _ _ enc => enc = none
+
+theorem string_roundtrip (H : Hashes) (hH : ∀ x, (H.sha2sum x).length = 32) (a : Addr)
+    (hs : Supported a) (hf : Fresh a) :
+    ∃ s a', toString H a = some s ∧ fromString H s = .ok a' ∧ outScript a' = outScript a := by
+  cases a with
+  | segwit hrp v p =>
+    obtain ⟨h1, h2, h3, h4⟩ := hs
+    have hh : hrp = [98, 99] ∨ hrp = [116, 98] := by
+      rcases hf with e | e
+      · left; rw [e, bc]
+      · right; rw [e, tb]
+    obtain ⟨s, hs⟩ := segwitEncode_isSome hrp p v hh h1 h2 h3 h4
+    exact ⟨s, _, hs, fromString_toString_segwit H hrp p s v hf hs, rfl⟩
+  | b58 ver h enc =>
+    obtain ⟨hl, hv⟩ := hs
+    have henc : enc = none := hf
+    subst henc
+    have hck : ((H.sha2sum (ver :: h)).take 4).length = 4 := by rw [List.length_take, hH]; rfl
+    have hp := b58_not_segwitPrefix ver (h ++ (H.sha2sum (ver :: h)).take 4)
+      (by rw [List.length_append, hl, hck]) (by
+        rcases hv with e | e | e | e | e <;> simp [e])
+    refine ⟨Base58.encode (ver :: h ++ (H.sha2sum (ver :: h)).take 4), _, rfl,
+      fromString_toString_b58 H hH ver h _ hl rfl hp, rfl⟩
 
 end GocoinV.Addr
